@@ -136,7 +136,7 @@ type checkRun struct {
 	staticViol []string // violations found by static obligations (reported as VIOLATION)
 }
 
-var engineOnlyLabels = map[string]bool{"unbounded-recursion": true, "uncaught-panic": true, "use-after-put": true, "pool-double-put": true, "deadlock": true, "unlock-unlocked": true}
+var engineOnlyLabels = map[string]bool{"unbounded-time": true, "unbounded-recursion": true, "uncaught-panic": true, "use-after-put": true, "pool-double-put": true, "deadlock": true, "unlock-unlocked": true}
 
 func runCheck(def *CheckDef, flags map[string]string) int {
 	t0 := time.Now()
@@ -313,7 +313,7 @@ func runCheck(def *CheckDef, flags map[string]string) int {
 		ok := false
 		for _, l := range c.Labels {
 			if engineOnlyLabels[l] {
-				if (l == "uncaught-panic" || l == "unbounded-recursion") && (c.Native.Panicked || c.Native.Crashed) {
+				if (l == "uncaught-panic" || l == "unbounded-recursion" || l == "unbounded-time") && (c.Native.Panicked || c.Native.Crashed) {
 					ok = true
 				}
 				continue
